@@ -6,6 +6,7 @@ import (
 	"fmt"
 	"math"
 	"reflect"
+	"seehuhn.de/go/geom/matrix"
 	"seehuhn.de/go/sfnt/cff"
 	"seehuhn.de/go/sfnt/glyf"
 	"time"
@@ -526,7 +527,7 @@ func c12Derived(r *run.Run) {
 func c12BBoxQuadrants(r *run.Run) {
 	offs := []int16{-2000, -100, 0, 1, 1000}
 	r.Explore(explore.Config{Name: "C12.bbox-quadrants"},
-		"fonts of each outline kind whose glyphs are triangles at every offset (x, y) in {-2000, -100, 0, 1, 1000}^2 (boxes left of, right of, below, above, touching and containing the origin), with an empty or an outlined glyph 0: GlyphBBox of every glyph, FontBBox, FontBBoxPDF and the head table's box equal the boxes of the points the glyphs were built from",
+		"fonts of each outline kind whose glyphs are triangles at every offset (x, y) in {-2000, -100, 0, 1, 1000}^2 (boxes left of, right of, below, above, touching and containing the origin), with an empty or an outlined glyph 0: GlyphBBox of every glyph, FontBBox, FontBBoxPDF and the head table's box equal the boxes of the points the glyphs were built from; under 5 font matrices that shear, rotate or mirror, FontBBoxPDF lies between the box of the transformed points and the box of the transformed glyph boxes",
 		func(c *explore.Ctx) {
 			kind := c.Choose(3, "outline kind")
 			ox := offs[c.Choose(len(offs), "x offset")]
@@ -599,6 +600,42 @@ func c12BBoxQuadrants(r *run.Run) {
 			wantPDF := [4]float64{float64(union.LLx) * q, float64(union.LLy) * q, float64(union.URx) * q, float64(union.URy) * q}
 			if got := [4]float64{pdf.LLx, pdf.LLy, pdf.URx, pdf.URy}; math.Abs(got[0]-wantPDF[0]) > 1e-6 || math.Abs(got[1]-wantPDF[1]) > 1e-6 || math.Abs(got[2]-wantPDF[2]) > 1e-6 || math.Abs(got[3]-wantPDF[3]) > 1e-6 {
 				c.Fail("C12.query", "FontBBoxPDF", "FontBBoxPDF()=%v want %v (%s)", got, wantPDF, desc)
+			}
+			// font matrices that shear, rotate or mirror: the box in PDF units contains the transformed points of
+			// every glyph and lies inside the box of the transformed corners of the glyph boxes
+			if !isCID(f) {
+				for _, fm := range []matrix.Matrix{{0.001, 0, -0.0002, 0.001, 0, 0}, {0.001, 0, 0.0003, 0.001, 0, 0}, {0.001, -0.0004, 0, 0.001, 0, 0}, {0.000866, 0.0005, -0.0005, 0.000866, 0, 0}, {-0.001, 0, 0, 0.002, 0, 0}} {
+					g := f.Clone()
+					g.FontMatrix = fm
+					lo := [4]float64{math.Inf(1), math.Inf(1), math.Inf(-1), math.Inf(-1)}
+					hi := lo
+					ext := func(b *[4]float64, x, y float64) {
+						px, py := 1000*(fm[0]*x+fm[2]*y+fm[4]), 1000*(fm[1]*x+fm[3]*y+fm[5])
+						b[0], b[1], b[2], b[3] = math.Min(b[0], px), math.Min(b[1], py), math.Max(b[2], px), math.Max(b[3], py)
+					}
+					for i := 0; i < n; i++ {
+						if i == 0 && emptyFirst {
+							continue
+						}
+						for _, p := range tri(i) {
+							ext(&lo, float64(p[0]), float64(p[1]))
+						}
+						w := want[i]
+						for _, p := range [][2]funit.Int16{{w.LLx, w.LLy}, {w.LLx, w.URy}, {w.URx, w.LLy}, {w.URx, w.URy}} {
+							ext(&hi, float64(p[0]), float64(p[1]))
+						}
+					}
+					got := g.FontBBoxPDF()
+					const eps = 1e-6
+					if got.LLx > lo[0]+eps || got.LLy > lo[1]+eps || got.URx < lo[2]-eps || got.URy < lo[3]-eps {
+						c.Fail("C12.query", "FontBBoxPDF under a general font matrix", "font matrix %v: FontBBoxPDF()=%v does not contain the transformed outlines %v (%s)", fm, got, lo, desc)
+						break
+					}
+					if got.LLx < hi[0]-eps || got.LLy < hi[1]-eps || got.URx > hi[2]+eps || got.URy > hi[3]+eps {
+						c.Fail("C12.query", "FontBBoxPDF under a general font matrix", "font matrix %v: FontBBoxPDF()=%v is larger than the transformed glyph boxes %v (%s)", fm, got, hi, desc)
+						break
+					}
+				}
 			}
 			file, err := writeFont(f)
 			if err != nil {
